@@ -228,4 +228,55 @@ theorem view_item_at_index (it : Ty) (shape : List (Option Nat)) (order sh : Lis
       rw [hu]
       exact (Option.some.inj this).symm
 
+/-- the item-offset table of a written array of dynamically sized items is read back word for word -/
+theorem array_table_read (it : Ty) (shape : List (Option Nat)) (order sh : List Nat) (items : List Val)
+    (hw : (Ty.array it shape order).WF) (hc : Conf (.array it shape order) (.arr sh items))
+    (hst : (ainfo it shape).staticType = false)
+    (m : Mem) (off : Nat) (hb : off + vsize (.array it shape order) (.arr sh items) ≤ m.length) (m' : Mem)
+    (hag : Agree m' (apply (shift off (patchesD (.array it shape order) (.arr sh items))) m) off
+      (off + vsize (.array it shape order) (.arr sh items))) :
+    readAt m' (off + (ainfo it shape).dataOff) (8 * items.length) =
+      words (offsetsD (vsize it) items ((ainfo it shape).dataOff + 8 * items.length)) := by
+  obtain ⟨hm, hl, hci, hd⟩ := hc
+  obtain ⟨ho, hwi⟩ := hw
+  have hitems : ∀ v ∈ items, Within (patchesD it v) 0 (vsize it v) := fun v hv =>
+    withinD it v hwi (confItems_mem it items hci v hv)
+  have hss : ((ainfo it shape).staticShape && (ainfo it shape).staticType) = false := by simp [hst]
+  have hv : vsize (.array it shape order) (.arr sh items) =
+      slot ((ainfo it shape).dataOff + 8 * items.length + sizesD (vsize it) items) := by simp [vsize, hst]
+  have hsl := slot_ge ((ainfo it shape).dataOff + 8 * items.length + sizesD (vsize it) items)
+  obtain ⟨hdrP, hpd⟩ : ∃ hdrP : Patch, patchesD (.array it shape order) (.arr sh items) =
+      [hdrP] ++ ((ainfo it shape).dataOff, words (offsetsD (vsize it) items ((ainfo it shape).dataOff + 8 * items.length))) ::
+        placeD (patchesD it) (vsize it) items ((ainfo it shape).dataOff + 8 * items.length) := by
+    refine ⟨(0, words (vsize (.array it shape order) (.arr sh items) :: (dynDims shape sh ++
+      (if !(ainfo it shape).staticShape && (ainfo it shape).nd > 1 then getStrides sh order (ainfo it shape).unit else [])))), ?_⟩
+    simp only [patchesD, hst, Bool.and_false, Bool.false_eq_true, ↓reduceIte]
+    rfl
+  have hall : InBounds (shift off (patchesD (.array it shape order) (.arr sh items))) m.length := by
+    intro q hq
+    obtain ⟨r, hr, rfl⟩ := mem_shift hq
+    have := withinD (.array it shape order) (.arr sh items) ⟨ho, hwi⟩ ⟨hm, hl, hci, hd⟩ r hr
+    simp only
+    omega
+  rw [hpd, shift_append, shift_cons] at hall hag
+  have hA : InBounds (shift off [hdrP]) m.length := fun q hq => hall q (List.mem_append_left _ hq)
+  have hB : InBounds (shift off (placeD (patchesD it) (vsize it) items ((ainfo it shape).dataOff + 8 * items.length))) m.length :=
+    fun q hq => hall q (List.mem_append_right _ (List.mem_cons_of_mem _ hq))
+  have lA := apply_length _ m hA
+  have hcons : ∀ (q : Patch) (ps : List Patch) (mm : Mem), apply (q :: ps) mm = apply ps (writeAt mm q.1 q.2) := fun _ _ _ => rfl
+  rw [apply_append, hcons] at hag
+  have hTl : (words (offsetsD (vsize it) items ((ainfo it shape).dataOff + 8 * items.length))).length = 8 * items.length := by
+    rw [words_length, offsetsD_length]
+  have hP := within_shift (d := off) (placeD_within (patchesD it) (vsize it) items
+    ((ainfo it shape).dataOff + 8 * items.length) hitems)
+  have hreg := region_after (apply (shift off [hdrP]) m) ((ainfo it shape).dataOff + off)
+    (words (offsetsD (vsize it) items ((ainfo it shape).dataOff + 8 * items.length)))
+    (shift off (placeD (patchesD it) (vsize it) items ((ainfo it shape).dataOff + 8 * items.length)))
+    (by rw [hTl, lA]; rw [hv] at hb; omega)
+    (by rw [hTl]; exact outside_of_within hP (Or.inr (by omega)))
+    (by rw [lA]; exact hB)
+  rw [hTl] at hreg
+  rw [Nat.add_comm off, readAt_agree hag (by omega) (by rw [hv]; omega)]
+  exact hreg
+
 end Lay
